@@ -120,8 +120,17 @@ def run_unit(unit, gen, outdir, rlimit=None, use_deps=True, extra=()):
         msg = d.get("message", "")
         lines = set()
         prim = set()
+        spans = []
         for sp in d.get("spans", []):
-            if not sp.get("file_name", "").endswith(unit + ".rs"): continue
+            prim_flag = sp.get("is_primary")
+            # follow macro expansions (panic!, assert!, matches! ...) back to the generated file
+            guard = 0
+            while sp is not None and not sp.get("file_name", "").endswith(unit + ".rs") and guard < 10:
+                sp = (sp.get("expansion") or {}).get("span"); guard += 1
+            if sp is None or not sp.get("file_name", "").endswith(unit + ".rs"): continue
+            sp = dict(sp); sp["is_primary"] = prim_flag
+            spans.append(sp)
+        for sp in spans:
             for l in range(sp["line_start"], sp["line_end"] + 1):
                 lines.add(l)
                 if sp.get("is_primary"): prim.add(l)
@@ -141,7 +150,7 @@ def run_unit(unit, gen, outdir, rlimit=None, use_deps=True, extra=()):
         labs = [gen.labels[l] for l in sorted(lines) if l in gen.labels]
         # only label lines that are the *primary* or narrow spans count; wide spans (whole body) do not
         narrow = set()
-        for sp in d.get("spans", []):
+        for sp in spans:
             if sp["line_end"] - sp["line_start"] <= 3:
                 for l in range(sp["line_start"], sp["line_end"] + 1): narrow.add(l)
         labs = [gen.labels[l] for l in sorted(narrow) if l in gen.labels and owner is not None and owner.lo <= l <= owner.hi]
